@@ -2302,12 +2302,20 @@ void indent_text()
             && prev->GetParentType() == CT_CASE)
          {
             // issue #663 + issue #1366
-            Chunk *prev_prev_newline = pc->GetPrevNl()->GetPrevNl();
+            // line up with the line that holds the closing brace - not simply
+            // with the previous line, which may be a comment
+            Chunk *first_on_line = prev;
 
-            if (prev_prev_newline->IsNotNullChunk())
+            while (  first_on_line->GetPrev()->IsNotNullChunk()
+                  && !first_on_line->GetPrev()->IsNewline())
+            {
+               first_on_line = first_on_line->GetPrev();
+            }
+
+            if (pc->GetPrevNl()->GetPrevNl()->IsNotNullChunk())
             {
                // This only affects the 'break', so no need for a stack entry
-               indent_column_set(prev_prev_newline->GetNext()->GetColumn());
+               indent_column_set(first_on_line->GetColumn());
             }
          }
       }
